@@ -107,4 +107,87 @@ RadAuthorise(present, req, groups, maps, dflt) ==
        THEN [res |-> "reject", vlan |-> 0, secret |-> "none"]
   ELSE [res |-> "release", vlan |-> RadFold(groups, maps, 1, dflt), secret |-> "own"]
 
+(***************************************************************************)
+(* Section Pam (C43)                                                       *)
+(*                                                                         *)
+(* L0, connected path. The resolver daemon answers each client request     *)
+(* with one reply; a scripted daemon is a sequence of reply kinds:         *)
+(*   continuing  Password MFACode MFAPoll MFAPollWait SetupPin Pin         *)
+(*               DeviceGrant                                               *)
+(*   deciding    Success Denied Unknown                                    *)
+(*   faults      Error, the eight non-authentication replies, Garbage (an  *)
+(*               undecodable frame), Truncated (half a frame, then close), *)
+(*               Disconnect (close instead of replying)                    *)
+(* The PAM application answers prompts: pw / mfa in {value, none, err},    *)
+(* pin in {value, none, err, alt (first confirmation mismatches)}, msg /   *)
+(* grant (display callbacks) in {ok, err}; module options ufp              *)
+(* (use_first_pass), iuu (ignore_unknown_user); stacked token authtok in   *)
+(* {some, none, err}.                                                      *)
+(* Logged line: {a:"pam_conn", script:[kinds], ufp, iuu, authtok, pw, mfa, *)
+(*   pin, msg, grant, res: PAM code, n: replies the daemon sent,           *)
+(*   reqs:[request kinds the daemon received]}                             *)
+(*                                                                         *)
+(* L0, fallback path (daemon unreachable): passwd entry present?, shadow   *)
+(* entry present?, hash kind, expiry class relative to now, typed password *)
+(* class, options.                                                         *)
+(* Logged line: {a:"pam_fb", user, shadow, hash, exp, typed, ufp, iuu,     *)
+(*   authtok, res}                                                         *)
+(***************************************************************************)
+PamCont  == {"Password", "MFACode", "MFAPoll", "MFAPollWait", "SetupPin", "Pin", "DeviceGrant"}
+PamOther == {"Ok", "SshKeys", "NssAccounts", "NssAccount", "NssGroups", "NssGroup", "PamStatus", "ProviderStatus"}
+PamFault == {"Error", "Garbage", "Truncated", "Disconnect"} \cup PamOther
+PamTerm  == {"Success", "Denied", "Unknown"} \cup PamFault
+
+PamSupported == {"sha256", "sha512", "yescrypt"}
+PamHashKinds == PamSupported \cup {"locked_bang", "locked_star", "locked_hash", "empty", "md5", "nologin_x"}
+
+\* L1 ---------------------------------------------------------------------
+\* "reports successful authentication only when the resolver daemon explicitly reports success, or, when the
+\*  daemon is unreachable, when the local shadow entry holds a supported hash that verifies the password and
+\*  the account has not expired. Every error, unknown user or unexpected reply yields a non-success result,
+\*  and locked or empty shadow password fields never authenticate."
+PamConnL1(script, res, n) ==
+  res = "SUCCESS" => (n >= 1 /\ n <= Len(script) /\ script[n] = "Success")
+\* the credential the fallback verifies: the stacked token when use_first_pass supplies one, else the typed one
+PamFbCred(c) == IF c.ufp /\ c.authtok \in {"right", "wrong"} THEN c.authtok ELSE c.typed
+PamFbL1(c, res) ==
+  res = "SUCCESS" => /\ c.user /\ c.shadow
+                     /\ c.hash \in PamSupported
+                     /\ PamFbCred(c) = "right"
+                     /\ c.exp # "past"
+
+\* L2 ---------------------------------------------------------------------
+\* sm_authenticate_connected (pam_sparkle_common/src/core.rs): one loop iteration per daemon reply.
+PamOut(res, n, reqs) == [res |-> res, n |-> n, reqs |-> reqs]
+PamAsk(mode) == CASE mode \in {"value", "alt"} -> "go" [] mode = "none" -> "CRED_INSUFFICIENT" [] OTHER -> "CONV_ERR"
+RECURSIVE PamLoop(_, _, _, _)
+PamLoop(c, i, stacked, reqs) ==
+  LET r == c.script[i]
+      next(q, st) == PamLoop(c, i + 1, st, Append(reqs, q))
+      ask(mode, q) == IF PamAsk(mode) = "go" THEN next(q, stacked) ELSE PamOut(PamAsk(mode), i, reqs)
+  IN  CASE r = "Success" -> PamOut("SUCCESS", i, reqs)
+        [] r = "Denied"  -> PamOut("AUTH_ERR", i, reqs)
+        [] r = "Unknown" -> PamOut(IF c.iuu THEN "IGNORE" ELSE "USER_UNKNOWN", i, reqs)
+        [] r \in PamFault -> PamOut("AUTH_ERR", i, reqs)
+        [] r = "Password" -> IF stacked THEN next("Password", FALSE) ELSE ask(c.pw, "Password")
+        [] r = "Pin"      -> IF stacked THEN next("Pin", FALSE) ELSE ask(c.pin, "Pin")
+        [] r = "MFACode"  -> ask(c.mfa, "MFACode")
+        [] r = "DeviceGrant" -> IF c.grant = "ok" THEN next("DeviceGrant", stacked) ELSE PamOut("CONV_ERR", i, reqs)
+        [] r = "MFAPoll"  -> IF c.msg = "ok" THEN next("MFAPoll", stacked) ELSE PamOut("CONV_ERR", i, reqs)
+        [] r = "MFAPollWait" -> next("MFAPoll", stacked)
+        [] r = "SetupPin" -> IF c.msg # "ok" THEN PamOut("CONV_ERR", i, reqs) ELSE ask(c.pin, "SetupPin")
+PamConn(c) ==
+  IF c.ufp /\ c.authtok = "err" THEN PamOut("AUTHTOK_ERR", 0, <<>>)
+  ELSE PamLoop(c, 1, c.ufp /\ c.authtok = "some", <<"Init">>)
+
+\* sm_authenticate_fallback
+PamFb(c) ==
+  IF ~(c.user /\ c.shadow) THEN (IF c.iuu THEN "IGNORE" ELSE "USER_UNKNOWN")
+  ELSE IF c.exp \in {"now", "past"} THEN "ACCT_EXPIRED"
+  ELSE IF c.ufp /\ c.authtok = "err" THEN "AUTHTOK_ERR"
+  ELSE LET cred == PamFbCred(c)
+       IN  IF cred = "none" THEN "CRED_INSUFFICIENT"
+           ELSE IF cred = "err" THEN "CONV_ERR"
+           ELSE IF c.hash \in PamSupported /\ cred = "right" THEN "SUCCESS" ELSE "AUTH_ERR"
+
 =============================================================================
